@@ -126,8 +126,10 @@ class FakeOs(object):
         return getattr(self._real, name)
 
 
-def make(kind, wcfg, conn):
-    """returns (transport object, socket double, wirelog or None, cleanup)"""
+def make(kind, wcfg, conn, owner=None):
+    """returns (transport object, socket double, wirelog or None, cleanup).
+    owner = (deque, bytearray) handed in EMPTY at construction by the transport's owner (as Patron /
+    TcpClientStack do with a Client): the owner keeps queueing and reading through its own references"""
     from ioflo.aio import wiring
     from ioflo.aio.tcp import clienting, serving
     from ioflo.aio.serial import serialing
@@ -139,11 +141,13 @@ def make(kind, wcfg, conn):
     sock = Sock(tls=kind in ("KClientTls", "KIncomerTls"))
     cleanup = lambda: None
     if kind == "KClient":
-        o = clienting.Client(ha=HA, wlog=wl)
+        o = (clienting.Client(ha=HA, wlog=wl) if owner is None else
+             clienting.Client(ha=HA, wlog=wl, txes=owner[0], rxbs=owner[1]))
         o.cs = sock
         o.connected = conn
     elif kind == "KClientTls":
-        o = clienting.ClientTls(ha=HA, wlog=wl, context=Ctx())
+        o = (clienting.ClientTls(ha=HA, wlog=wl, context=Ctx()) if owner is None else
+             clienting.ClientTls(ha=HA, wlog=wl, context=Ctx(), txes=owner[0], rxbs=owner[1]))
         o.cs = sock
         o.accepted = conn
         o.connected = conn
@@ -165,8 +169,10 @@ def make(kind, wcfg, conn):
     return o, sock, wl, cleanup
 
 
-def run_impl(kind, wcfg, conn, ops):
-    o, sock, wl, cleanup = make(kind, wcfg, conn)
+def run_impl(kind, wcfg, conn, ops, shared=False):
+    import collections
+    owner = (collections.deque(), bytearray()) if shared else None
+    o, sock, wl, cleanup = make(kind, wcfg, conn, owner)
     raises = 0
     connected = conn
     queued = bytearray()
@@ -175,7 +181,10 @@ def run_impl(kind, wcfg, conn, ops):
             t = op[0]
             try:
                 if t == "tx":
-                    o.tx(bytes(op[1]))
+                    if shared:
+                        owner[0].append(bytes(op[1]))   # the owner queues on ITS deque
+                    else:
+                        o.tx(bytes(op[1]))
                     queued += bytes(op[1])
                 elif t == "svctx":
                     sock.sres = [tuple(r) for r in op[1]]
@@ -205,8 +214,9 @@ def run_impl(kind, wcfg, conn, ops):
         cleanup()
     res = {
         "accepted": bytes(sock.accepted),
-        "txes": [bytes(d) for d in o.txes],
-        "rxbs": bytes(o.rxbs),
+        "txes": [bytes(d) for d in (owner[0] if shared else o.txes)],   # what the OWNER sees
+        "rxbs": bytes(owner[1] if shared else o.rxbs),
+        "shared": shared,
         "cutoff": bool(getattr(o, "cutoff", False)),
         "raises": raises,
         "connected": connected,
@@ -239,6 +249,15 @@ def prop_holds(kind, wcfg, ops, res):
     if benign(kind, ops):
         if res["accepted"] + b"".join(res["txes"]) != res["queued"]:
             return "accepted ++ still-queued is not the queued byte stream"
+        ntx = sum(1 for op in ops if op[0] == "tx")
+        last = ops[-1] if ops else None
+        if (last is not None and last[0] == "svctx" and len(last[1]) >= ntx and all(tuple(x) == ("S", 9) for x in last[1])
+                and res["connected"] and not res["cutoff"]
+                and (res["txes"] or res["accepted"] != res["queued"])):
+            return ("after a final pass in which the socket accepts everything, queued data is still unsent: "
+                    "accepted %r, still queued %r%s" % (res["accepted"], res["txes"],
+                                                       " (queued through the owner's deque handed in at construction)"
+                                                       if res.get("shared") else ""))
     if res["rxbs"] != b"".join(res["delivered"]):
         return "receive buffer is not the concatenation of the delivered chunks"
     if present and kind != "KDriver":
@@ -441,7 +460,11 @@ def run(ctx):
     cases, metas = [], []
 
     def add(kind, wcfg, conn, ops, label):
-        r = run_impl(kind, wcfg, conn, ops)
+        # every other client case is constructed the way its owners do: empty deque / bytearray handed in
+        shared = kind in ("KClient", "KClientTls") and len(cases) % 2 == 1
+        if shared:
+            label += "+owner-buffers"
+        r = run_impl(kind, wcfg, conn, ops, shared)
         hard = any((op[0] == "svctx" and any(x[0] != "S" or x[1] < 3 for x in op[1])) or
                    (op[0] == "svcrx" and len(op[1]) > 1) for op in ops)
         ctx.case({"kind": kind, "w": wcfg, "conn": conn, "ops": ops}, nontrivial=hard,
@@ -488,12 +511,16 @@ def run(ctx):
         best = None
         for kind, wcfg, conn, ops, r in metas:
             why = prop_holds(kind, wcfg, ops, r)
-            if why and (best is None or len(repr(ops)) < len(repr(best["ops"]))):
+            rank = (0 if r["queued"] or r["delivered"] else 1, len(repr(ops)))
+            if why and (best is None or rank < best["_rank"]):
                 best = {"class": kind, "wirelog(present,rx,tx,same)": wcfg, "connected": conn, "ops": ops,
+                        "constructed_with_owner_txes_rxbs": bool(r.get("shared")),
                         "observed": {k: repr(v) for k, v in r.items()}, "why": why,
                         "expected": "accepted ++ concat(txes) == queued; rxbs == concat(delivered); wire log == accepted slices",
                         "contradicts": "C24.Props.tx_exactly_once_in_order / wirelog_and_rxbuffer",
-                        "key": "stream-bytes-once-in-order"}
+                        "key": "stream-bytes-once-in-order", "_rank": rank}
+        if best is not None:
+            best.pop("_rank", None)
         return best
 
     ctx.settle(search)
